@@ -171,6 +171,17 @@ PROPS = {
                 "duplicate feature / identity / typedef / grouping, bad augment path, two modules deviating one leaf in an order-dependent way); each case is compiled 8 times with the modules supplied in different orders; "
                 "compared: the verdict and its class with the Lean decision (cycle walk over the reference graphs), and that verdict and dump never change between the 8 compiles",
     },
+    "C15": {
+        "streams": {"yxp": {"quick": 2500, "thorough": 100000}},
+        "trusted": ["the Lean XPath lexer + parser model is the one tied to /repo by C03 / C04 / C05 (regenerated grammar obligations, exhaustive small-scope correspondence)",
+                    "the listing of a compiled machine (PrintMachine) with the namespace of every name test is the observation of prefix resolution"],
+        "modelled": ["the namespace an unprefixed name resolves to (the using module for copies of a grouping, the module of the text for a typedef and for an augment's nodes) is modelled as the code has it; the property only fixes prefixed names",
+                     "configd:must / path-evaluation machines (warnings) are outside the model",
+                     "the general statement 'every name test of a compiled program carries a prefix of the textual module' is compared, not proved"],
+        "rule": "five modules: c, d plain; b imports c as x; m imports b, c as y, d as x (the same prefix as in b for another module); a2 imports m and c as z. Random must / when / leafref path expressions (the generators of C02 / C03 / C04 with the prefixes of "
+                "the module the text is written in) are placed in a grouping and a typedef of b that m uses, directly in m, and on a leaf and on the augment statement of an augment of m written in a2; 3 % use a prefix the textual module does not import "
+                "(though the using module does), 2 % are mutated into syntax errors; compared: the compile verdict, that the error names the statement and quotes the expression, and for every compiled node the expression text and the machine listing with resolved namespaces",
+    },
     "C04": {
         "streams": {"xsmall": {"quick": 1, "thorough": 1, "spec_proj": "accept"},
                     "xfuzz": {"quick": 30000, "thorough": 1000000, "spec_proj": "accept"}},
